@@ -791,7 +791,14 @@ def codec_comprehension(I, e, frame, sub, kind, it):
             return SMappedDict(res.src.d, res.value)
         raise Unsupported("dict comprehension in a codec does not rebuild the source dict")
     if kind == "set":
-        raise Unsupported("set comprehension in a codec")
+        from .codec import SetItems
+
+        if isinstance(res, SetItems):
+            return res.s
+        if isinstance(res, ZVal) and isinstance(res.ty, TSeq):
+            x = z3.Const("setc_x", res.ty.elem.sort())
+            return ZVal(TSet(res.ty.elem), Cell(z3.Lambda([x], z3.Contains(res.t, z3.Unit(x)))))
+        raise Unsupported("set comprehension in a codec does not rebuild the source set")
     return res
 
 
